@@ -23,17 +23,21 @@ Lemma k2_repaired :
   ambient_denies 0 k2_world 1 w_lbl false 80 = false.
 Proof. split; [eexists; split; [reflexivity|split; reflexivity]|repeat split; reflexivity]. Qed.
 
-(* mesh STRICT + workload UNSET + port 8080 DISABLE: the static strict policy stays attached, 8080 rejects plaintext *)
+(* former finding C10-disable-port-under-strict-parent (repaired in /repo 24c83bf): mesh STRICT + workload UNSET +
+   port 8080 DISABLE: 8080 now accepts plaintext, every other port rejects it *)
 Definition dis_world : list pa := [mk_root MStrict; mk_wl MUnset [(8080%N, MDisable)]].
-Lemma dis_refutes :
-  effective_mode 0 dis_world 1 w_lbl 8080 = MDisable /\ ambient_denies 0 dis_world 1 w_lbl false 8080 = true.
-Proof. split; reflexivity. Qed.
+Lemma dis_repaired :
+  effective_mode 0 dis_world 1 w_lbl 8080 = MDisable /\ ambient_denies 0 dis_world 1 w_lbl false 8080 = false /\
+  effective_mode 0 dis_world 1 w_lbl 80 = MStrict /\ ambient_denies 0 dis_world 1 w_lbl false 80 = true.
+Proof. repeat split; reflexivity. Qed.
 
-(* mesh STRICT + namespace policy with UNSET mode + workload UNSET + port 8080 PERMISSIVE: nothing is enforced *)
+(* former finding C10-unset-ns-policy-masks-mesh-strict (repaired in /repo 45faab8): mesh STRICT + namespace policy
+   with UNSET mode + workload UNSET + port 8080 PERMISSIVE: every port but 8080 rejects plaintext *)
 Definition unsetns_world : list pa := [mk_root MStrict; mk_ns MUnset; mk_wl MUnset [(8080%N, MPermissive)]].
-Lemma unsetns_refutes :
-  effective_mode 0 unsetns_world 1 w_lbl 80 = MStrict /\ ambient_denies 0 unsetns_world 1 w_lbl false 80 = false.
-Proof. split; reflexivity. Qed.
+Lemma unsetns_repaired :
+  effective_mode 0 unsetns_world 1 w_lbl 80 = MStrict /\ ambient_denies 0 unsetns_world 1 w_lbl false 80 = true /\
+  effective_mode 0 unsetns_world 1 w_lbl 8080 = MPermissive /\ ambient_denies 0 unsetns_world 1 w_lbl false 8080 = false.
+Proof. repeat split; reflexivity. Qed.
 
 (* K9: namespace policy STRICT spelled "selector: {}" + workload UNSET + port 8080 PERMISSIVE: nothing is enforced *)
 Definition k9_world : list pa :=
@@ -47,7 +51,7 @@ Lemma ambient_strict_ports_refuted :
   exists root all wl_ns labels port,
     ambient_denies root all wl_ns labels false port <>
     mode_eqb (effective_mode root all wl_ns labels port) MStrict.
-Proof. exists 0%N, unsetns_world, 1%N, w_lbl, 80%N. vm_compute. discriminate. Qed.
+Proof. exists 0%N, k9_world, 1%N, w_lbl, 80%N. vm_compute. discriminate. Qed.
 
 (* ------------------------------------------------------------------ what does hold, on a bounded domain *)
 
@@ -72,18 +76,6 @@ Definition world3 (rm nm : option mode) (wm : mode) (ports : list (N * mode)) : 
 
 Definition omode (o : option mode) : mode := match o with Some m => m | None => MUnset end.
 
-(* the confirmed defects, as conditions on the winning (mesh, namespace, workload) policies *)
-Definition has_mode (f : mode -> bool) (ports : list (N * mode)) : bool := existsb (fun pm => f (snd pm)) ports.
-Definition parent_mode (rm nm : option mode) : mode :=
-  if is_unset (omode nm) then (if is_unset (omode rm) then MPermissive else omode rm) else omode nm.
-Definition defect_disable_port (rm nm : option mode) (wm : mode) (ports : list (N * mode)) : bool :=
-  is_unset wm && is_strict (parent_mode rm nm) && has_mode is_disable ports && negb (has_mode is_permissive ports).
-Definition defect_unset_ns (rm nm : option mode) (wm : mode) (ports : list (N * mode)) : bool :=
-  is_unset wm && (match nm with Some MUnset => true | _ => false end) && is_strict (omode rm) &&
-  has_mode is_permissive ports.
-Definition defect (rm nm : option mode) (wm : mode) (ports : list (N * mode)) : bool :=
-  defect_disable_port rm nm wm ports || defect_unset_ns rm nm wm ports.
-
 Definition ambient_agrees (rm nm : option mode) (wm : mode) (ports : list (N * mode)) (port : N) : bool :=
   let all := world3 rm nm wm ports in
   Bool.eqb (ambient_denies 0 all 1 w_lbl false port) (mode_eqb (effective_mode 0 all 1 w_lbl port) MStrict) &&
@@ -91,23 +83,19 @@ Definition ambient_agrees (rm nm : option mode) (wm : mode) (ports : list (N * m
 
 Definition bounded_check : bool :=
   forallb (fun rm => forallb (fun nm => forallb (fun wm => forallb (fun ports =>
-    defect rm nm wm ports || forallb (ambient_agrees rm nm wm ports) bound_probes)
+    forallb (ambient_agrees rm nm wm ports) bound_probes)
     (port_maps bound_keys)) modes) opt_modes) opt_modes.
 
 Lemma bounded_check_true : bounded_check = true.
 Proof. vm_compute. reflexivity. Qed.
 
-(* ... and inside the defect conditions the disagreement is real for some port (the conditions are tight
-   on this domain except where the exception happens to coincide with the parent mode) *)
-
 Lemma ambient_strict_ports_bounded : forall rm nm wm ports port,
   In rm opt_modes -> In nm opt_modes -> In ports (port_maps bound_keys) -> In port bound_probes ->
-  defect rm nm wm ports = false ->
   ambient_denies 0 (world3 rm nm wm ports) 1 w_lbl false port =
     mode_eqb (effective_mode 0 (world3 rm nm wm ports) 1 w_lbl port) MStrict /\
   ambient_denies 0 (world3 rm nm wm ports) 1 w_lbl true port = false.
 Proof.
-  intros rm nm wm ports port Hrm Hnm Hports Hport Hdef.
+  intros rm nm wm ports port Hrm Hnm Hports Hport.
   pose proof bounded_check_true as H. unfold bounded_check in H.
   rewrite forallb_forall in H. specialize (H rm Hrm).
   rewrite forallb_forall in H. specialize (H nm Hnm).
@@ -115,7 +103,6 @@ Proof.
   assert (In wm modes) as Hwm by (destruct wm; cbn; auto).
   specialize (H wm Hwm).
   rewrite forallb_forall in H. specialize (H ports Hports).
-  rewrite Hdef in H. cbn [orb] in H.
   rewrite forallb_forall in H. specialize (H port Hport).
   unfold ambient_agrees in H. apply andb_true_iff in H. destruct H as [H1 H2].
   apply eqb_prop in H1. apply negb_true_iff in H2. split; assumption.
